@@ -340,6 +340,10 @@ def run(ctx) -> None:
         else:
             from .. import gen
             v = gen.sam_game(rng, n, rng.choice(gen.SAM_FAMILIES))[0]
+        if rng.random() < 0.3:
+            k2 = rng.choice([-30, 20, 40])
+            v = [x * 2.0 ** k2 for x in v]
+            fam = f"{fam}*2^{k2}"
         check_predicates(ctx, n, v, fam)
 
 
